@@ -497,3 +497,15 @@ Example C05_minimal_push_examples :
   fst (engine_execute no_sigops (mkExecInput [x55] [x55; x87] 256 false false 0 0 0)) = VOk /\
   fst (engine_execute no_sigops (mkExecInput [x01; x05] [x55; x87] 0 false false 0 0 0)) = VOk.
 Proof. vm_compute. repeat split; reflexivity. Qed.
+
+(** State inventory (tie, translator part): every Go struct the model of this property represents has, in the
+    source as it is NOW (gen/Structs.v, regenerated on every run), exactly the fields - names, types, order - the
+    model was written against (model/StateInventory.v).  New state in these objects (a memoised digest, a cached
+    document, a remembered operand) is state the theorems above do not speak about: this is the obligation that
+    stops checking then. *)
+From GoBT Require gen.Structs model.StateInventory.
+Theorem C05_state_inventory :
+  forall k, In k (StateInventory.group_of "C05") ->
+  exists f, StateInventory.lookup_gen gen.Structs.structs k = Some f /\ StateInventory.lookup_model k = Some f.
+Proof. apply StateInventory.inventory_ok_spec. vm_compute. reflexivity. Qed.
+Print Assumptions C05_state_inventory.
